@@ -183,6 +183,7 @@ type Backend struct {
 	Raw        func(b *Backend, w http.ResponseWriter, r *http.Request)
 	WriteErrs  []string
 	CtxAtEntry context.Context
+	Direct     bool // handed the server's own ResponseWriter (pass-through)
 }
 
 func (b *Backend) ServeHTTP(w http.ResponseWriter, r *http.Request) {
@@ -191,6 +192,7 @@ func (b *Backend) ServeHTTP(w http.ResponseWriter, r *http.Request) {
 	if b.Calls == 1 {
 		b.Seen = seen
 		b.CtxAtEntry = r.Context()
+		_, b.Direct = w.(*drive.Recorder)
 	}
 	if b.Raw != nil {
 		b.Raw(b, w, r)
